@@ -238,7 +238,9 @@ void failed_call(LS &L) {
 void set_ops(LS &L) {
   Model &m = L.m;
   switch (gen(5)) {
-  case 0: { bool b = gen(2); HX_API_V("p_socket_set_blocking", L.id, false, p_socket_set_blocking(L.s, b)); m.blocking = b; break; }
+  case 0: { bool b = gen(2); static const int truthy[] = {TRUE, 2, 4, 256, -2};   /* pboolean is an int: any non-zero value asks for blocking mode */
+            int arg = b ? (gen(3) == 0 ? truthy[1 + gen(4)] : TRUE) : FALSE;
+            HX_API_V("p_socket_set_blocking", L.id, false, p_socket_set_blocking(L.s, arg)); m.blocking = b; break; }
   case 1: { static const int ts[] = {0, 1, 50, 1000, 60000, -5, -1, 4294968, 2147483647}; int t = ts[gen(20) == 0 ? 6 + gen(3) : gen(6)];  /* rarely: -1, and values whose micro/nanosecond form needs more than 32 bits */ HX_API_V("p_socket_set_timeout", L.id, false, p_socket_set_timeout(L.s, t)); m.timeout = t < 0 ? 0 : t; break; }
   case 2: { bool kalive = gen(2); HX_API_V("p_socket_set_keepalive", L.id, false, p_socket_set_keepalive(L.s, kalive));
             if (!m.closed) m.keepalive = kalive;      // on a closed socket the option cannot be applied: the getter keeps its value
